@@ -86,6 +86,8 @@ Definition add_untagged1 (l : list resp) (r : resp) : list resp :=
   end.
 Definition add_untagged (l rs : list resp) : list resp := fold_left add_untagged1 rs l.
 
+Definition is_expunge (r : resp) : bool := match r with Expunge _ => true | _ => false end.
+
 Definition needs_selected (c : cmd) : bool :=
   match c with
   | CSelect _ _ | CAppend _ _ _ | CNoop | CTouch => false
@@ -135,8 +137,10 @@ Definition do_command (sy : sys) (me : N) (c : cmd) : sys * list resp :=
       end in
   let idle' := match c, o_tagged o with CIdle, Cont => true | _, _ => false end in
   let ss1 := aset me (MkSess sel' idle') (sy_sess sy) in
-  (MkSys (o_boxes o) (fold_left apply_grant (o_grants o) ss1),
-   add_untagged (o_untagged o) untagged ++ [o_tagged o]).
+  (* FETCH updates that follow EXPUNGE responses are not mergeable (fix a63f6b3) *)
+  let all_untagged := if existsb is_expunge untagged then o_untagged o ++ untagged
+                      else add_untagged (o_untagged o) untagged in
+  (MkSys (o_boxes o) (fold_left apply_grant (o_grants o) ss1), all_untagged ++ [o_tagged o]).
 
 (* receive_updates: check_mailbox (update_selected) + fork, untagged only *)
 Definition idle_wake (sy : sys) (me : N) : sys * list resp :=
